@@ -97,9 +97,14 @@ HTAG = {int: "HInt", str: "HStr", bool: "HBool", (int | str): "HIntStr"}
 _KIND_IO = {}
 
 
+_KCLS = {}
+
+
 def _mknode(kind, label):
-    from pyiron_workflow.nodes.function import function_node
-    n = function_node(KFUN[kind], label=label)
+    if kind not in _KCLS:          # one node class per kind (the source is scraped once)
+        from pyiron_workflow.nodes.function import as_function_node
+        _KCLS[kind] = as_function_node()(KFUN[kind])
+    n = _KCLS[kind](label=label)
     n.recovery = None
     return n
 
@@ -506,6 +511,13 @@ def oracle(case, obs):
                 extra = len(cur[a]) - len(prev[a])
                 if extra < 0 or cur[a][extra:] != prev[a]:
                     return f"refused-changed: {where}: channel {a} lost or reordered partners: {prev[a]} -> {cur[a]}"
+        if code != 0 and k in ("copy_conns", "copy_io", "replace"):
+            # the documented promise of the undo logs (C12_failed_copy_adds_nothing)
+            for a in range(len(cur)):
+                extra = [p for p in cur[a] if p not in prev[a]]
+                if extra:
+                    return (f"copy-residue: {where}: the copy failed ({EXC_INV.get(code, code)}) but channel {a} "
+                            f"keeps new partner(s) {extra}")
         if k == "connect" and len(op[2]) == 1 and code == 0:
             a, b = op[1], op[2][0]
             exp = [list(r) for r in prev]
@@ -814,6 +826,18 @@ def generate(ctx):
             seen.add(kk)
             out.append(c)
             hangs += bool(c.pop("_hung", False))
+    return out
+
+
+def search(ctx, results, mism):
+    """extra implementation-side search when only a gate / the correspondence fails"""
+    import random
+    rng = random.Random(f"C12-search-{ctx.seed}")
+    out = []
+    while len(out) < 1500:
+        out.append(gen_case(rng, 3, 6, 8, 40))
+        if out[-1].pop("_hung", False):
+            break
     return out
 
 
